@@ -383,6 +383,35 @@ let manual_loop (uf : 'c -> faddr -> 'r -> ('ru, 'r) outcome) (pc : n) (rg : 'r)
   done;
   (List.rev !out, !cache)
 
+(* like manual_loop but stops at the first non-frame result and shows sp / fp after each step *)
+let trace_loop (uf : 'c -> faddr -> 'r -> ('ru, 'r) outcome) (spfp : 'r -> n * n) (pc : n) (rg : 'r) (c : 'c) (cnt : int)
+  : string list * 'c =
+  let out = ref [] in
+  let addr = ref (IP pc) in
+  let regs = ref rg in
+  let cache = ref c in
+  let stop = ref false in
+  let s0, f0 = spfp rg in
+  out := [ Printf.sprintf "ok ip %s sp=%s fp=%s" (hex pc) (hex s0) (hex f0) ];
+  for _ = 1 to cnt - 1 do
+    if !stop then ()
+    else begin
+      let o = uf !cache !addr !regs in
+      regs := o.o_regs;
+      cache := o.o_cache;
+      let s1, f1 = spfp !regs in
+      match o.o_res with
+      | Ok (Some ra) ->
+        if ra = N0 then begin out := "err ReturnAddressIsNull" :: !out; stop := true end
+        else begin addr := RA ra; out := Printf.sprintf "ok ra %s sp=%s fp=%s" (hex ra) (hex s1) (hex f1) :: !out end
+      | Ok None -> out := "ok none" :: !out; stop := true
+      | Err e -> out := fmt_err e :: !out; stop := true
+      | Panic s -> out := fmt_panic s :: !out; stop := true
+      | Hang -> out := "hang" :: !out; stop := true
+    end
+  done;
+  (List.rev !out, !cache)
+
 let run_x86 (lines : string list) : unit =
   let w = ref (world0 N0) in
   let mods : (string, xmodule) Hashtbl.t = Hashtbl.create 16 in
@@ -487,6 +516,20 @@ let run_x86 (lines : string list) : unit =
             (match !w.unws u, !w.caches c, Hashtbl.find_opt mems memid with
              | Some uw, Some ca, Some m ->
                let outl, ca' = manual_loop (fun c a r -> unwind_frame_x uw c a r m) pc rg ca cnt in
+               let ww = !w in
+               w := { ww with caches = upd ww.caches c ca' };
+               "iter " ^ String.concat " | " outl
+             | _ -> "bad")
+          | "trace" ->
+            let u = id_of ("u:" ^ next k) in
+            let c = id_of ("c:" ^ next k) in
+            let pc = nx k in
+            let rg = parse_regs_x86 k in
+            let memid = next k in
+            let cnt = ix k in
+            (match !w.unws u, !w.caches c, Hashtbl.find_opt mems memid with
+             | Some uw, Some ca, Some m ->
+               let outl, ca' = trace_loop (fun c a r -> unwind_frame_x uw c a r m) (fun r -> (r.rf RSP, r.rf RBP)) pc rg ca cnt in
                let ww = !w in
                w := { ww with caches = upd ww.caches c ca' };
                "iter " ^ String.concat " | " outl
@@ -613,6 +656,20 @@ let run_a64 (lines : string list) : unit =
             (match !w.unws u, !w.caches c, Hashtbl.find_opt mems memid with
              | Some uw, Some ca, Some m ->
                let outl, ca' = manual_loop (fun c a r -> unwind_frame_a uw c a r m) pc rg ca cnt in
+               let ww = !w in
+               w := { ww with caches = upd ww.caches c ca' };
+               "iter " ^ String.concat " | " outl
+             | _ -> "bad")
+          | "trace" ->
+            let u = id_of ("u:" ^ next k) in
+            let c = id_of ("c:" ^ next k) in
+            let pc = nx k in
+            let rg = parse_regs_a64 k in
+            let memid = next k in
+            let cnt = ix k in
+            (match !w.unws u, !w.caches c, Hashtbl.find_opt mems memid with
+             | Some uw, Some ca, Some m ->
+               let outl, ca' = trace_loop (fun c a r -> unwind_frame_a uw c a r m) (fun r -> (r.asp, r.afp)) pc rg ca cnt in
                let ww = !w in
                w := { ww with caches = upd ww.caches c ca' };
                "iter " ^ String.concat " | " outl
